@@ -305,6 +305,17 @@ Theorem read_print_repl : forall is_print v fuel, dat is_print false v -> (vsize
 Proof. exact PrinterProofs.read_print_repl. Qed.
 Print Assumptions read_print_repl.
 
+(* the Go API for incremental input (ResetAddNewInput + NewInput): cuts at ANY rune offsets, also inside atoms *)
+Theorem read_print_cut : forall is_print v fuel cuts, dat is_print false v -> (vsize v + 3 <= fuel)%nat ->
+  observe (parse_pieces true false fuel (cut_pieces cuts 0 (print is_print v))) = (StDone, [to_sexp v]).
+Proof. exact PrinterProofs.read_print_cut. Qed.
+Print Assumptions read_print_cut.
+
+Example cut_inside_atoms :
+  observe (parse_pieces true false 40 (cut_pieces [4; 8; 11]%nat 0 (print (fun _ => true) (VArr [VInt 1234567; VSym [97; 98; 99; 100]]))))
+  = (StDone, [SArr false [SInt 1234567; sym [97; 98; 99; 100]]]).
+Proof. vm_compute. reflexivity. Qed.
+
 (* a backtick string with an empty line and a line of blanks inside, typed line by line *)
 Example repl_blank_lines :
   observe (parse_pieces true false 40 (split_lines (print (fun _ => true) (VArr [VBStr [Rune 97; Rune 10; Rune 10; Rune 32; Rune 10; Rune 98]; VInt (-2)]))))
